@@ -281,8 +281,88 @@ fn ignore_strategy() -> BoxedStrategy<IgnoreCase> {
         .boxed()
 }
 
+/// The same problem in two texts that differ right next to it (document start at 0-3 characters
+/// before the lint, other punctuation, other language): what was ignored in the first text may
+/// hide in the second only lints with the same identity.
+#[derive(Debug, Clone, Serialize, Deserialize, PartialEq, Eq, Hash)]
+pub struct AcrossCase {
+    pub core: String,
+    pub first: (String, String, bool),
+    pub second: (String, String, bool),
+}
+
+pub fn test_across(c: &AcrossCase, ctx: &mut CaseCtx) -> Result<(), String> {
+    let t1 = format!("{}{}{}", c.first.0, c.core, c.first.1);
+    let t2 = format!("{}{}{}", c.second.0, c.core, c.second.1);
+    let d1 = doc_of(&t1, c.first.2);
+    let d2 = doc_of(&t2, c.second.2);
+    let (Ok(l1), Ok(l2)) = (crate::core::catch(|| lint_doc(&d1)), crate::core::catch(|| lint_doc(&d2))) else {
+        ctx.class("skipped_c01_panic");
+        return Ok(());
+    };
+    if l1.is_empty() || l2.is_empty() {
+        ctx.class("no_lints");
+        return Ok(());
+    }
+    let mut ignored = IgnoredLints::new();
+    for l in &l1 {
+        ignored.ignore_lint(l, &d1);
+    }
+    let ids1: Vec<Identity> = l1.iter().map(|l| identity(l, &d1)).collect();
+    let mut rest = l2.clone();
+    ignored.remove_ignored(&mut rest, &d2);
+    let mut differing = false;
+    for l in &l2 {
+        let id = identity(l, &d2);
+        let twin = ids1.iter().any(|i| *i == id);
+        let near_twin = !twin && ids1.iter().any(|i| i.fields == id.fields && i.at == id.at);
+        if near_twin {
+            differing = true;
+            if l.span.start <= 2 || l1.iter().any(|x| x.span.start <= 2) {
+                ctx.class("same_lint_other_neighbour_at_document_start");
+            }
+        }
+        if !twin && !rest.contains(l) {
+            return Err(format!(
+                "every lint of {t1:?} ({}) was ignored; in {t2:?} ({}) the lint {}..{} {:?} is hidden although no ignored lint has its message, kind, suggestions and surrounding tokens (its neighbourhood: {:?} | {:?} | {:?}; ignored with the same fields: {:?})",
+                if c.first.2 { "markdown" } else { "plain" },
+                if c.second.2 { "markdown" } else { "plain" },
+                l.span.start, l.span.end, l.message, id.before, id.at, id.after,
+                ids1.iter().filter(|i| i.fields == id.fields).map(|i| (&i.before, &i.at, &i.after)).collect::<Vec<_>>()
+            ));
+        }
+    }
+    if differing {
+        ctx.class("same_lint_other_neighbour");
+        ctx.nontrivial(c);
+    }
+    Ok(())
+}
+
+fn across_strategy() -> BoxedStrategy<AcrossCase> {
+    const PRE: &[&str] = &["", "", " ", "  ", "(", "\"", "A ", "x", "- ", "> ", "So ", "1 ", "* ", "\n", "é "];
+    const POST: &[&str] = &["", ".", " now.", ")", "\"", "!!", " <b>x</b>", ", ok", "\n"];
+    let core = (g::sel_str(ERRORS), g::plain_word(), any::<bool>()).prop_map(|(e, w, cap)| {
+        if cap {
+            let mut cs = e.chars();
+            let f: String = cs.next().map(|c| c.to_uppercase().collect()).unwrap_or_default();
+            format!("{f}{} {w}", cs.as_str())
+        } else {
+            format!("{e} {w}")
+        }
+    });
+    let side = || (g::sel_str(PRE), g::sel_str(POST), prop::bool::weighted(0.4));
+    (core, side(), side())
+        .prop_map(|(core, first, second)| AcrossCase { core, first, second })
+        .boxed()
+}
+
 pub fn run(run: &mut Run) {
-    run.rule = "documents biased to repeated problems (the same error 2-3 times with equal or different neighbours, optionally next to quotes/brackets) plus G-TEXT documents, plain and Markdown, curated rules; a random subset of the lints is ignored; then (b) the ignore list goes through JSON and (c) a paragraph is prepended and/or appended (with/without quotes). Oracle uses an independent identity: equal kind/message/suggestions/priority and equal texts of the tokens intersecting the span, the 2 chars before and the 2 chars after. Non-trivial = something ignored and (two lints with equal fields but different neighbourhoods, or a quote in a neighbourhood, or text prepended).".into();
+    let n = run.n(3_000, 150_000);
+    run.prop("ignore_across_texts", n, across_strategy, test_across);
+    run.require_class("ignore_across_texts", "same_lint_other_neighbour", (n / 10) as u64);
+    run.require_class("ignore_across_texts", "same_lint_other_neighbour_at_document_start", (n / 20) as u64);
+    run.rule = "documents biased to repeated problems (the same error 2-3 times with equal or different neighbours, optionally next to quotes/brackets) plus G-TEXT documents, plain and Markdown, curated rules; a random subset of the lints is ignored; then (b) the ignore list goes through JSON and (c) a paragraph is prepended and/or appended (with/without quotes). Oracle uses an independent identity: equal kind/message/suggestions/priority and equal texts of the tokens intersecting the span, the 2 chars before and the 2 chars after. ignore_across_texts: the same problem embedded in two texts that differ right next to it (0-3 characters between the document start and the lint, other punctuation after it, plain vs Markdown); every lint of the first text is ignored, and in the second text only lints with the same identity may be hidden. Non-trivial = something ignored and (two lints with equal fields but different neighbourhoods, or a quote in a neighbourhood, or text prepended).".into();
     let n = run.n(3_000, 150_000);
     run.prop("ignore_and_edit", n, ignore_strategy, test_ignore);
     run.require_class("ignore_and_edit", "equal_fields_different_neighbourhood", (n / 10) as u64);
@@ -290,7 +370,11 @@ pub fn run(run: &mut Run) {
     run.require_class("ignore_and_edit", "edit_checked_lint", (n / 4) as u64);
 }
 
-pub fn replay(_check: &str, case: Value, _run: &mut Run) -> Result<(), String> {
+pub fn replay(check: &str, case: Value, _run: &mut Run) -> Result<(), String> {
+    if check == "ignore_across_texts" {
+        let c: AcrossCase = serde_json::from_value(case).map_err(|e| e.to_string())?;
+        return test_across(&c, &mut CaseCtx::default());
+    }
     let c: IgnoreCase = serde_json::from_value(case).map_err(|e| e.to_string())?;
     let mut ctx = CaseCtx::default();
     test_ignore(&c, &mut ctx)
